@@ -106,7 +106,22 @@ CasesFor(si) ==
           : f \in 2..N}
     : ij \in (1..N) \X (1..N)}
 
-AllCases == UNION {CasesFor(si) : si \in ShapeLo..MinN(ShapeHi, Len(Shapes))}
+\* split-view server (Proofs!HistPoison): the trusted state i is clean (p beyond its tree); the response about j >= i is
+\* what the generator yields over the poisoned tree.  The new state must be refused when its tree disowns a transaction
+\* the client already holds in its chain: S.bl < p <= min(i, T.bl) (what the linear advance proof is for).
+PoisonCasesFor(si) ==
+  UNION {
+    LET hp == HistPoison(Shapes[si], VarH, N, p)  tree == TreeLeaves(hp, p) IN
+    {LET i == c[1]  j == c[2]
+         r == GenDualT(hp, tree, i, j, c[3])
+         trusted == HAlh(hp[i])  newAlh == HAlh(r.tgtHdr) IN
+     [shape |-> si, f |-> p, i |-> i, j |-> j, kind |-> "poison", comp |-> IF c[3] THEN "tblFromTree" ELSE "tblFromChain", op |-> "", pos |-> 0,
+      go |-> VerifyDual(r, i, j, trusted, newAlh),
+      truth |-> ChainLinked(trusted, newAlh, j - i) /\ ~(hp[i].bl < p /\ p <= MinN(i, hp[j].bl))]
+     : c \in {c \in (1..N) \X (1..N) \X BOOLEAN : c[1] <= c[2] /\ p > hp[c[1]].bl}}
+    : p \in 1..N}
+
+AllCases == UNION {CasesFor(si) \cup PoisonCasesFor(si) : si \in ShapeLo..MinN(ShapeHi, Len(Shapes))}
 
 Complete == \A c \in AllCases : c.kind = "honest" => c.go /\ c.truth
 \* within the enumerated space the transcribed verifier never accepts a state that is not linked to the trusted one
@@ -116,6 +131,7 @@ ASSUME PrintT(<<"shapes", Len(Shapes), "cases", Cardinality(AllCases)>>)
 ASSUME PrintT(<<"Complete", Complete>>)
 ASSUME PrintT(<<"ModelSound", ModelSound>>)
 ASSUME PrintT(<<"unsound", {<<c.shape, c.f, c.i, c.j, c.kind, c.comp, c.op, c.pos>> : c \in {c \in AllCases : c.go /\ ~c.truth}}>>)
+ASSUME PrintT(<<"poison", Cardinality({c \in AllCases : c.kind = "poison"}), "refused-needed", Cardinality({c \in AllCases : c.kind = "poison" /\ ~c.truth}), "accepted", Cardinality({c \in AllCases : c.kind = "poison" /\ c.go})>>)
 ASSUME PrintT(<<"accepted-nonhonest", Cardinality({c \in AllCases : c.go /\ c.kind # "honest"})>>)
 ASSUME JsonSerialize(OutFile, [N |-> N, shapes |-> Shapes, cases |-> SetToSeq(AllCases)])
 
